@@ -56,3 +56,6 @@ def check(ctx):
     ctx.cfg = "bin+server"
     kernel.W_store(ctx, others, rule="S.W-store/ext")
     kernel.W_ctor_ext(ctx, others)
+    if ctx.tier == "thorough":
+        from rules import witness
+        witness.check(ctx, ['W01', 'W06', 'W07', 'W13'])   # informational: what external crates cannot reach (scope of the who-may-write census)
